@@ -623,6 +623,10 @@ class RecurrencePlot(Cached):
         self.threshold = threshold
         recurrence = np.zeros((n_time, n_time), dtype="int8")
         recurrence[distance < threshold] = 1
+        if self.missing_values:
+            #  State vectors with missing values are never recurrent
+            recurrence[self.missing_value_indices, :] = 0
+            recurrence[:, self.missing_value_indices] = 0
         self.R = recurrence
 
     def set_fixed_local_recurrence_rate(self, local_recurrence_rate):
@@ -655,6 +659,10 @@ class RecurrencePlot(Cached):
                 distance[i, :], local_recurrence_rate)
             #  Thresholding the distance matrix for column i
             recurrence[i, distance[i, :] < local_threshold] = 1
+        if self.missing_values:
+            #  State vectors with missing values are never recurrent
+            recurrence[self.missing_value_indices, :] = 0
+            recurrence[:, self.missing_value_indices] = 0
         self.R = recurrence
 
     def set_adaptive_neighborhood_size(self, adaptive_neighborhood_size,
@@ -702,6 +710,10 @@ class RecurrencePlot(Cached):
 
         _set_adaptive_neighborhood_size(n_time, adaptive_neighborhood_size,
                                         sorted_neighbors, order, recurrence)
+        if self.missing_values:
+            #  State vectors with missing values are never recurrent
+            recurrence[self.missing_value_indices, :] = 0
+            recurrence[:, self.missing_value_indices] = 0
         self.R = recurrence
 
     @staticmethod
